@@ -7,6 +7,7 @@ package c01
 //   e2e-tcp   byte streams through a tcp_proxy listener, closed by either peer right after its last write
 
 import (
+	"crypto/tls"
 	"bufio"
 	"bytes"
 	"encoding/binary"
@@ -1218,6 +1219,8 @@ type tcpScript struct {
 	Closer     string   // "client" | "server"
 	Final      int      // number of trailing chunks of the closer written back-to-back just before close
 	EarlyWrite bool     // client starts writing before the proxy had a chance to connect upstream
+	// TLS: "" plain on both sides | "down" the listener terminates TLS | "up" the cluster originates TLS | "both"
+	TLS string
 }
 
 type chunkSpec struct {
@@ -1275,6 +1278,12 @@ func TestPropE2ETCP(t *testing.T) {
 			nCloser = len(s.S2C)
 		}
 		s.Final = rapid.IntRange(0, nCloser).Draw(rt, "finalBurst")
+		s.TLS = rapid.SampledFrom([]string{"", "", "down", "up", "both"}).Draw(rt, "tls")
+		if s.Closer == "server" && len(concat(s.C2S)) == 0 && len(concat(s.S2C)) == 0 {
+			// nothing to carry and the upstream closes at once: behind a TLS listener the proxy may drop the client
+			// before the handshake is through - an empty stream either way
+			s.TLS = map[string]string{"down": "", "both": "up"}[s.TLS] + map[string]string{"": "", "up": "up"}[s.TLS]
+		}
 		tcpCase(rt, s)
 	})
 }
@@ -1288,6 +1297,9 @@ type tcpSide struct {
 func tcpCase(rt *rapid.T, s *tcpScript) {
 	c2s, s2c := concat(s.C2S), concat(s.S2C)
 	classes := []string{"closer:" + s.Closer}
+	if s.TLS != "" {
+		classes = append(classes, "tls:"+s.TLS)
+	}
 	finalBytes := 0
 	closerChunks := s.C2S
 	if s.Closer == "server" {
@@ -1315,11 +1327,11 @@ func tcpCase(rt *rapid.T, s *tcpScript) {
 		}
 		return o
 	}
-	canon := []byte(fmt.Sprintf("%v|%v|%s|%d|%x|%x", sizes(s.C2S), sizes(s.S2C), s.Closer, s.Final, head(c2s), head(s2c)))
+	canon := []byte(fmt.Sprintf("%v|%v|%s|%d|%x|%x|%s", sizes(s.C2S), sizes(s.S2C), s.Closer, s.Final, head(c2s), head(s2c), s.TLS))
 	ev.Case(partTCP, len(c2s)+len(s2c) > 0, canon, func() interface{} {
-		return map[string]interface{}{"c2s_chunks": sizes(s.C2S), "s2c_chunks": sizes(s.S2C), "gaps_c": s.GapC, "gaps_s": s.GapS, "closer": s.Closer, "final_burst_chunks": s.Final}
+		return map[string]interface{}{"c2s_chunks": sizes(s.C2S), "s2c_chunks": sizes(s.S2C), "gaps_c": s.GapC, "gaps_s": s.GapS, "closer": s.Closer, "final_burst_chunks": s.Final, "tls": s.TLS}
 	}, classes...)
-	desc := fmt.Sprintf("c2s %v gaps %v, s2c %v gaps %v, closer %s writes its last %d chunk(s) (%d bytes) and closes at once", sizes(s.C2S), s.GapC, sizes(s.S2C), s.GapS, s.Closer, s.Final, finalBytes)
+	desc := fmt.Sprintf("tls=%q c2s %v gaps %v, s2c %v gaps %v, closer %s writes its last %d chunk(s) (%d bytes) and closes at once", s.TLS, sizes(s.C2S), s.GapC, sizes(s.S2C), s.GapS, s.Closer, s.Final, finalBytes)
 	fail := func(sig, format string, a ...interface{}) {
 		ev.Fail(rt, partTCP, "tcp/"+sig, "%s: %s", desc, fmt.Sprintf(format, a...))
 	}
@@ -1343,7 +1355,9 @@ func tcpCase(rt *rapid.T, s *tcpScript) {
 				rmu.Unlock()
 				if err != nil {
 					rmu.Lock()
-					if err == io.EOF {
+					if err == io.EOF || (err == io.ErrUnexpectedEOF && isTLS(c)) {
+						// a TLS peer that goes away without close_notify: whether the proxy owes that alert is not the
+						// property's subject, the stream ended either way
 						res.eof = true
 					} else {
 						res.err = err
@@ -1395,11 +1409,25 @@ func tcpCase(rt *rapid.T, s *tcpScript) {
 		return res
 	}
 
+	certPEM, keyPEM, srvCfg := tlsMaterial()
 	srvRes := make(chan tcpSide, 1)
 	var armed, taken int32
 	up := mesh.NewRawServer(func(id int, c net.Conn) {
 		// NewCase's readiness probe makes the proxy open (and drop) an upstream connection: only the first
 		// connection accepted after arming belongs to the case
+		if s.TLS == "up" || s.TLS == "both" {
+			// every upstream connection of this cluster starts with the proxy's ClientHello, the probe's too
+			tc := tls.Server(c, srvCfg)
+			_ = tc.SetDeadline(time.Now().Add(exchangeDeadline))
+			if err := tc.Handshake(); err != nil {
+				if atomic.LoadInt32(&armed) == 1 && atomic.CompareAndSwapInt32(&taken, 0, 1) {
+					srvRes <- tcpSide{err: fmt.Errorf("upstream TLS handshake: %v", err)}
+				}
+				return
+			}
+			_ = tc.SetDeadline(time.Time{})
+			c = tc
+		}
 		if atomic.LoadInt32(&armed) == 0 || !atomic.CompareAndSwapInt32(&taken, 0, 1) {
 			_, _ = io.Copy(io.Discard, c)
 			return
@@ -1407,7 +1435,16 @@ func tcpCase(rt *rapid.T, s *tcpScript) {
 		srvRes <- play(c, s.S2C, s.GapS, len(c2s), s.Closer == "server", s.Final)
 	})
 	defer up.Close()
-	cs, err := mesh.NewCaseBound(mesh.Opts{Down: "tcp", Up: "tcp", Hosts: []string{up.Addr}})
+	opts := mesh.Opts{Down: "tcp", Up: "tcp", Hosts: []string{up.Addr}}
+	if s.TLS == "down" || s.TLS == "both" {
+		opts.Listener = func(ln *v2.Listener) {
+			ln.FilterChains[0].TLSContexts = []v2.TLSConfig{{Status: true, CertChain: certPEM, PrivateKey: keyPEM}}
+		}
+	}
+	if s.TLS == "up" || s.TLS == "both" {
+		opts.Cluster = func(cl *v2.Cluster) { cl.TLS = v2.TLSConfig{Status: true, InsecureSkip: true} }
+	}
+	cs, err := mesh.NewCaseBound(opts)
 	if err != nil {
 		rt.Skip("rig: " + err.Error())
 	}
@@ -1432,6 +1469,15 @@ func tcpCase(rt *rapid.T, s *tcpScript) {
 	c, err := net.DialTimeout("tcp", cs.Addr, 3*time.Second)
 	if err != nil {
 		rt.Skip("dial: " + err.Error())
+	}
+	if s.TLS == "down" || s.TLS == "both" {
+		tc := tls.Client(c, &tls.Config{InsecureSkipVerify: true, ServerName: "c01.test"})
+		_ = tc.SetDeadline(time.Now().Add(exchangeDeadline))
+		if err := tc.Handshake(); err != nil {
+			fail("client-tls-handshake-failed", "%v", err)
+		}
+		_ = tc.SetDeadline(time.Time{})
+		c = tc
 	}
 	cliRes := play(c, s.C2S, s.GapC, len(s2c), s.Closer == "client", s.Final)
 	var sr tcpSide
@@ -1466,3 +1512,5 @@ func head(b []byte) []byte {
 	}
 	return b
 }
+
+func isTLS(c net.Conn) bool { _, ok := c.(*tls.Conn); return ok }
